@@ -48,17 +48,24 @@
 #include <ufw/persistent-storage.h>
 #include <ufw/crc/crc16-arc.h>
 
-#ifndef N
-#define N 4
+/* instance parameters arrive as VP_* macros (the driver passes every -D to the
+ * library units as well, so short names are defined only here) */
+#ifndef VP_DATA_N
+#define VP_DATA_N 4
 #endif
+#define N VP_DATA_N
 #ifndef PROP
 #define PROP "C10"
 #endif
-#ifndef KINDS
-#define KINDS 0x1fu                   /* bit k set: run kind k */
+#ifdef VP_KINDS
+#define KINDS VP_KINDS                /* bit k set: run kind k */
+#else
+#define KINDS 0x1fu
 #endif
-#ifndef AUXSET
-#define AUXSET 0xffffffffu            /* bit a set: run auxiliary size a */
+#ifdef VP_AUXSET
+#define AUXSET VP_AUXSET              /* bit a set: run auxiliary size a */
+#else
+#define AUXSET 0xffffffffu
 #endif
 
 #define GUARD 2
@@ -377,8 +384,9 @@ static bool c10_begin(struct c10_cfg *c, uint8_t kind, uint8_t aux, const uint8_
     c->kind = kind;
     c->aux = aux;
     m_cs = C10_WIDE(kind) ? 4 : 2;
-    if ((uint64_t)c->base + m_cs + N > 0x100000000ull)
-        return false;
+    /* no early return: an assignment below a symbolic branch would reach the
+     * caller as a conditional value and defeat constant propagation */
+    const bool fits = (uint64_t)c->base + m_cs + N <= 0x100000000ull;
     m_base = c->base;
     m_calls = m_reads = m_writes = 0;
     m_fault_at = -1;
@@ -396,7 +404,7 @@ static bool c10_begin(struct c10_cfg *c, uint8_t kind, uint8_t aux, const uint8_
     /* the buffer ends exactly after `aux` octets */
     c10_aux = aux ? c10_auxarr + (AUXMAX - aux) : NULL;
 #endif
-    return true;
+    return fits;
 }
 
 /* a fresh instance with the configuration c (public API only) */
